@@ -338,6 +338,8 @@ func FamilyRef(thorough bool, seed int64) []*Skeleton {
 		{"relid-base", "sub/root.json", "http://b/dir/doc.json"},
 		{"absid-base", "http://h/dir/root.json", "http://b/other.json"},
 		{"urn", "urn:example:root", ""},
+		// an absolute $id is normalised like any other reference (RFC 3986 5.2.2 removes its dot segments)
+		{"absid-dots", "http://h/dir/sub/../root.json", ""},
 	}
 	embeddedIDs := []string{"sub/x.json", "../y.json", "./z", "http://other/abs.json", "x.json"}
 	mk1 := func(name string, root rootCfg, doc J, refs map[string]string, universe map[string]string, mayRefuse bool) {
@@ -435,6 +437,14 @@ func FamilyRef(thorough bool, seed int64) []*Skeleton {
 			eu := refsem.ParseURI(embAbs)
 			mk("embedded-absolute-dots", root, J{"$defs": J{"e": emb}}, map[string]string{"d": eu.Scheme + "://" + eu.Authority + "/a/./../" + eu.Path[1:]}, nil, false)
 		}
+		// an embedded resource whose absolute $id carries dot segments: it is known under the
+		// normalised URI, whichever spelling a reference uses, and references from inside it
+		// resolve against the normalised base
+		embDots := J{"$id": "http://other/a/b/../c/./abs.json", "$anchor": "ea", "const": 13, "$defs": J{"in": J{"$anchor": "ain", "const": 14}, "q": J{"$ref": "#/$defs/in"}, "qa": J{"$ref": "#ain"}, "qs": J{"$ref": "sib.json"}, "sib": J{"$id": "sib.json", "const": 15}}}
+		mk("embedded-absolute-id-dots", root, J{"$defs": J{"e": embDots}}, map[string]string{
+			"norm": "http://other/a/c/abs.json", "normanch": "http://other/a/c/abs.json#ea", "normptr": "http://other/a/c/abs.json#/$defs/in",
+			"asis": "http://other/a/b/../c/./abs.json", "asisanch": "http://other/a/b/../c/./abs.json#ain",
+			"viaq": "#/$defs/e/$defs/q", "viaqa": "#/$defs/e/$defs/qa", "viaqs": "#/$defs/e/$defs/qs", "sib": "http://other/a/c/sib.json"}, nil, false)
 		mk("remote-missing", root, J{}, map[string]string{"r": "nowhere.json"}, u1, false)
 		mk("remote-missing-anchor", root, J{}, map[string]string{"r": "remote.json#zz"}, u1, false)
 		// chain a -> b
@@ -501,7 +511,11 @@ func sortedKeysS(m map[string]string) []string {
 // FamilyPtr: "#"+percent-encoded JSON Pointer of every subschema location of a maximal
 // document, resolved end to end through Resolve and validated (C17-K3).
 func FamilyPtr(draft int) []*Skeleton {
-	keys := []string{"", "/", "~", "~0", "~1", "%", " ", "é", "0", "-", "a/b", "a", "01", "+1", "%25", "a b", "%41", "A", "a+b"}
+	keys := []string{"", "/", "~", "~0", "~1", "%", " ", "é", "0", "-", "a/b", "a", "01", "+1", "%25", "a b", "%41", "A", "a+b",
+		// a literal '+' next to a character that has to be percent-encoded, with the sibling a
+		// form-decoding (QueryUnescape) would select instead; an encoded '+'; a key that is
+		// itself the text of an escape of '+'
+		"a+b c", "a b c", "+é", " é", "%2B", "+"}
 	esc := func(k string) string {
 		return strings.ReplaceAll(strings.ReplaceAll(k, "~", "~0"), "/", "~1")
 	}
@@ -544,7 +558,7 @@ func FamilyPtr(draft int) []*Skeleton {
 	for _, kw := range maps {
 		mm := J{}
 		for _, k := range keys {
-			if kw == "patternProperties" && (k == "%" || k == "+1" || k == "%25" || k == "%41" || k == "a+b") {
+			if kw == "patternProperties" && (k == "%" || k == "+1" || k == "%25" || k == "%41" || k == "a+b" || k == "a+b c" || k == "a b c" || k == "+é" || k == " é" || k == "%2B" || k == "+") {
 				continue // not valid regular expressions / irrelevant
 			}
 			mm[k] = mark()
@@ -565,6 +579,10 @@ func FamilyPtr(draft int) []*Skeleton {
 	}
 	for _, p := range ptrs {
 		add(p, "#"+pct("/"+defsKw+"/max"+p))
+		if strings.Contains(p, "+") {
+			// the same pointer with '+' itself percent-encoded (both spellings are valid fragments)
+			add(p+".plus-encoded", "#"+strings.ReplaceAll(pct("/"+defsKw+"/max"+p), "+", "%2B"))
+		}
 	}
 	// invalid or dangling pointers: Resolve must fail
 	for _, bad := range []string{"/allOf/2", "/allOf/-", "/allOf/01", "/allOf/+1", "/allOf/-0", "/allOf/1x", "/allOf/", "/properties/zz", "/not/not", "/nope", "/properties", "/allOf", "/properties/~", "/properties/~2", "/required/0", "/type"} {
